@@ -409,6 +409,8 @@ def check_transitions(model: Model, report: Any, rule: str) -> None:
         ("in-group", dict(filter_depth=1, bracket_top="(")),
         ("in-call", dict(filter_depth=1, bracket_top="(", in_function=1)),
         ("in-call-nested-paren", dict(filter_depth=1, bracket_top="(", in_function=2)),
+        # a filter of a bracketed selection that is itself (part of) an argument of a call: count(@[?@.a, ?@.b])
+        ("in-selection-inside-call", dict(filter_depth=1, bracket_top="[", in_function=1)),
     ):
         steps = run(F, **kw)
         if steps is None:
@@ -418,8 +420,12 @@ def check_transitions(model: Model, report: Any, rule: str) -> None:
         # ']' ends the filter and is left for the bracketed-segment state
         expect(F, cfg, steps, "']'", lambda s: _first(s) == "]", lambda s: None if (s.next_state == B and s.filter_depth_delta == -1 and s.consumed == 0 and not s.tokens and not s.error) else "']' must end the filter (depth-1), stay unconsumed and return to the bracketed segment")
         # ','
-        if func0:
+        # a comma belongs to the innermost open bracket: directly inside a call's parentheses it separates arguments;
+        # inside a bracketed selection it separates selectors, also when that selection is nested in an argument
+        if func0 and top == "(":
             expect(F, cfg, steps, "',' inside a call", lambda s: _first(s) == ",", lambda s: None if ([t[0] for t in s.tokens] == ["COMMA"] and s.next_state == F and s.filter_depth_delta == 0 and s.func_after == func0) else "a comma between function arguments must emit COMMA and stay in the filter")
+        elif func0:
+            expect(F, cfg, steps, "',' in a selection nested in a call", lambda s: _first(s) == ",", lambda s: None if ([t[0] for t in s.tokens] == ["COMMA"] and s.next_state == B and s.filter_depth_delta == -1 and s.func_after == func0) else "a comma inside a bracketed selection ends the filter selector (COMMA, depth-1, back to the bracketed segment) even when the selection is an argument of a function call: count(@[?@.a, ?@.b]) is a valid query")
         else:
             expect(F, cfg, steps, "',' outside a call", lambda s: _first(s) == ",", lambda s: None if ([t[0] for t in s.tokens] == ["COMMA"] and s.next_state == B and s.filter_depth_delta == -1) else "a comma outside a function call ends the filter selector (COMMA, depth-1, back to the bracketed segment)")
         # '('
